@@ -323,6 +323,11 @@ def part_b(rep: Report, tier: str) -> None:
             src = f'"""TKMOD{u} module summary.\n\nTKMOD{u} second paragraph.\n"""\n\n\n' + "\n\n".join(ds[n][0] for n in perm)
             exp = [e for n in perm for e in ds[n][1]]
             units.append((f"top:{'>'.join(perm)}", style, f"d{u}", src, exp, f"TKMOD{u}"))
+        # a module WITHOUT docstring whose later string statement describes a variable: no module description
+        u = f"{next(uid):05d}"
+        ds = decl_sources(style, u)
+        src = f"import os\n\nXV{u} = 1\n\"\"\"TKVAR{u} describes the variable.\"\"\"\n\n\n" + ds["F2"][0]
+        units.append(("module-without-docstring", style, f"d{u}", src, [*ds["F2"][1], (f"TKVAR{u}", None, "absent", None)], None))
         mnames = ["m1", "m2", "xi", "pr", "st"]
         mperms = list(itertools.permutations(mnames, 3)) if tier == "thorough" else list(itertools.permutations(mnames[:4], 3))
         for perm in mperms:
